@@ -62,7 +62,9 @@ class DiagnosticStatusRequest(ModbusRequest):
 
         :param data: The data to decode into the function code
         '''
-        self.sub_function_code, self.message = struct.unpack('>HH', data)
+        self.sub_function_code, = struct.unpack('>H', data[:2])
+        words = struct.unpack('>' + 'H' * (len(data[2:]) // 2), data[2:])
+        self.message = words[0] if len(words) == 1 else list(words)
     
     def get_response_pdu_size(self):
         """
